@@ -21,8 +21,8 @@ if only:
     items = [i for i in items if i['expect'] == only or only in i['id']]
 
 def run(it):
-    checks = claimed if ('--all-checks' in args or it['expect'] == 'neg') else [it['expect']] if it['expect'] in claimed else []
-    if '--all-checks' not in args and it['expect'] != 'neg':
+    checks = claimed if ('--all-checks' in args or it['expect'] in ('neg', 'limits')) else [it['expect']] if it['expect'] in claimed else []
+    if '--all-checks' not in args and it['expect'] not in ('neg', 'limits'):
         checks = sorted(set(checks + [c for c in claimed]))  # always run all: cross-detection is recorded
     if '--full' not in args:
         # C08 and C19 (90-100 s each) depend only on the codec, the bitmap event and the GUI painter: skipped for patches that touch none of them
@@ -53,6 +53,9 @@ for it in done:
     status = 'n/a'
     if exp == 'neg':
         status = 'ok' if not det else 'FALSE-ALARM'
+    elif exp == 'limits':
+        # behaviour-preserving rewrites the engines cannot prove (DESIGN.md 9.11): reported, documented, not counted as negative controls
+        status = 'documented-limit' if det else 'limit-now-silent'
     elif exp in claimed:
         status = 'caught' if exp in det else ('caught-elsewhere' if det else 'MISSED')
     else:
